@@ -33,12 +33,31 @@ def coreUn (op : Op) : Bool := op = .neg || op = .inv
 /-- every infix operator of the fragment -/
 def coreInfix : List Op :=
   [.add, .sub, .mul, .mod, .eq, .ne, .lt, .le, .gt, .ge, .is_, .is_not, .and_, .or_,
-   .truediv, .floordiv, .concat_op]
+   .truediv, .floordiv, .concat_op, .like_op, .not_like_op, .ilike_op, .not_ilike_op]
 
 def corePrefix : List Op := [.neg, .inv]
 
 /-- precedence of an operator as `is_precedent` reads it for the *child* -/
 def precOf (op : Op) : Int := (precedence op).getD opSmallest
+
+/-- the root operator of a core element, if it has one -/
+def rootOp : SaExpr → Option Op
+  | .binary op _ _ _ _ _ => some op
+  | .clist op _ _ _ _ => some op
+  | .unary op _ _ => some op
+  | _ => none
+
+/-- an operand without root operator: an atom, a `Grouping`, a bracket construct -/
+def closedE (c : SaExpr) : Bool := (rootOp c).isNone
+
+/-- the LIKE family (`like`, `not_like`, `ilike`, `not_ilike`, with or without `escape=`) -/
+def likeOp (op : Op) : Bool :=
+  op = .like_op || op = .not_like_op || op = .ilike_op || op = .not_ilike_op
+
+/-- the pairs operator / recorded negation of the LIKE family -/
+def likePair (op n : Op) : Bool :=
+  (op = .like_op && n = .not_like_op) || (op = .not_like_op && n = .like_op) ||
+  (op = .ilike_op && n = .not_ilike_op) || (op = .not_ilike_op && n = .ilike_op)
 
 mutual
 /-- the element belongs to the fragment -/
@@ -48,7 +67,8 @@ def Core : SaExpr → Bool
   | .null => true
   | .true_ => true
   | .false_ => true
-  | .binary op l r _ esc _ => coreBinD op && esc.isNone && Core l && Core r
+  | .binary op l r _ esc _ =>
+    ((coreBinD op && esc.isNone) || (likeOp op && closedE l && closedE r)) && Core l && Core r
   | .clist op cs group _ _ => coreList op && group && decide (2 ≤ cs.length) && CoreList cs
   | .unary op e _ => coreUn op && Core e
   | .grouping e => Core e
@@ -84,6 +104,31 @@ def WGAll : List SaExpr → Bool
   | e :: es => WG e && WGAll es
 end
 
+theorem core_binary {op : Op} {l r : SaExpr} {n : Option Op} {esc : Option String} {ty : Ty}
+    (hc : Core (.binary op l r n esc ty) = true) :
+    Core l = true ∧ Core r = true ∧
+      ((coreBinD op = true ∧ esc.isNone = true) ∨
+       (likeOp op = true ∧ closedE l = true ∧ closedE r = true)) := by
+  simp only [Core, Bool.and_eq_true, Bool.or_eq_true] at hc
+  obtain ⟨⟨h, hl⟩, hr⟩ := hc
+  refine ⟨hl, hr, ?_⟩
+  rcases h with h | h
+  · exact Or.inl h
+  · exact Or.inr ⟨h.1.1, h.1.2, h.2⟩
+
+theorem likeOp_mem {op : Op} (h : likeOp op = true) : op ∈ coreInfix := by
+  cases op <;> simp [likeOp] at h <;> simp [coreInfix]
+
+/-- the operator of a binary of the fragment is one of its infix operators -/
+theorem core_binary_mem {op : Op} {l r : SaExpr} {n : Option Op} {esc : Option String} {ty : Ty}
+    (hc : Core (.binary op l r n esc ty) = true) : op ∈ coreInfix := by
+  obtain ⟨_, _, h⟩ := core_binary hc
+  rcases h with h | h
+  · rcases (by simpa [coreBinD] using h.1 : coreBin op = true ∨ coreDiv op = true) with h' | h'
+    · cases op <;> simp [coreBin] at h' <;> simp [coreInfix]
+    · cases op <;> simp [coreDiv] at h' <;> simp [coreInfix]
+  · exact likeOp_mem h.1
+
 /-- the root operator (if any) has precedence above `p` -/
 def rootAbove (p : Int) : SaExpr → Bool
   | .binary op _ _ _ _ _ => decide (p < precOf op)
@@ -107,12 +152,28 @@ end
 
 def infBase (g : Grammar) (op : Op) : Nat :=
   match g.infixBp (symOf op) with
-  | some (lbp, rbp) => min lbp rbp
+  | some (lbp, rbp) =>
+    (match g.ternBp (symOf op) with
+     | some (_, bp3, _) => min (min lbp rbp) bp3
+     | none => min lbp rbp)
   | none => 0
 
 def preBase (g : Grammar) (op : Op) : Nat := (g.prefixBp (symOf op)).getD 0
 
 def sepSyms : List Sym := [.comma, .as_, .when_, .then_, .else_]
+
+def likeOps : List Op := [.like_op, .not_like_op, .ilike_op, .not_ilike_op]
+
+/-- the LIKE family in `g`: every member has the optional `ESCAPE` continuation, `ESCAPE` is no
+    infix operator of its own, and ILIKE / NOT ILIKE sit on the level of LIKE / NOT LIKE (every
+    dialect but PostgreSQL spells `ilike` as `lower(x) LIKE lower(y)`) -/
+def likeCompat (g : Grammar) : Bool :=
+  (likeOps.all fun o => match g.ternBp (symOf o) with
+    | some (.escape, _, false) => true
+    | _ => false) &&
+  (g.infixBp .escape).isNone &&
+  decide (g.infixBp .ilike = g.infixBp .like) && decide (g.ternBp .ilike = g.ternBp .like) &&
+  decide (g.infixBp .notIlike = g.infixBp .notLike) && decide (g.ternBp .notIlike = g.ternBp .notLike)
 
 /-- the separators inside brackets (`,` `AS` `WHEN` `THEN` `ELSE`) share one left-associative
     level, have no ternary form, and every operator of the fragment binds tighter -/
@@ -128,7 +189,8 @@ def sepCompat (g : Grammar) : Bool :=
     (corePrefix.all fun u => decide (opSmallest - 1 < precOf u)) &&
     -- SQLite spells true division `l / (r + 0.0)`: whatever is left bare under `/` binds
     -- tighter than the `+` it is put under
-    decide (precOf .add ≤ precOf .truediv)
+    decide (precOf .add ≤ precOf .truediv) &&
+    likeCompat g
 
 /-- in `g`, every infix operator of the fragment with a higher precedence number than `concat_op`
     binds tighter than `||` on both sides: true for PostgreSQL, false for SQLite (where `||`
@@ -144,8 +206,8 @@ def concatFull (g : Grammar) : Bool :=
 def coreCompat (g : Grammar) : Bool :=
   sepCompat g &&
   -- every symbol is an operator of the grammar, without ternary form
-  (coreInfix.all fun o => (g.infixBp (symOf o)).isSome && (g.ternBp (symOf o)).isNone &&
-      (precedence o).isSome) &&
+  (coreInfix.all fun o => (g.infixBp (symOf o)).isSome &&
+      (likeOp o || (g.ternBp (symOf o)).isNone) && (precedence o).isSome) &&
   (corePrefix.all fun u => (g.prefixBp (symOf u)).isSome && (precedence u).isSome) &&
   -- a child whose precedence number is higher binds tighter than the parent, on both sides
   (coreInfix.all fun p => match g.infixBp (symOf p) with
@@ -280,9 +342,31 @@ theorem coreUn_mem {op : Op} (h : coreUn op = true) : op ∈ corePrefix := by
 
 /-! ### unpacking `coreCompat` -/
 
+structure LikeFacts (g : Grammar) : Prop where
+  tern : ∀ o, likeOp o = true → ∃ bp3, g.ternBp (symOf o) = some (.escape, bp3, false)
+  esc_none : g.infixBp .escape = none
+  same_i : g.infixBp .ilike = g.infixBp .like
+  same_t : g.ternBp .ilike = g.ternBp .like
+  same_ni : g.infixBp .notIlike = g.infixBp .notLike
+  same_nt : g.ternBp .notIlike = g.ternBp .notLike
+
+theorem like_of_bool (g : Grammar) (h : likeCompat g = true) : LikeFacts g := by
+  simp only [likeCompat, Bool.and_eq_true, List.all_eq_true, decide_eq_true_eq, Option.isNone_iff_eq_none] at h
+  obtain ⟨⟨⟨⟨⟨h1, h2⟩, h3⟩, h4⟩, h5⟩, h6⟩ := h
+  refine ⟨?_, h2, h3, h4, h5, h6⟩
+  intro o ho
+  have hm : o ∈ likeOps := by cases o <;> simp [likeOp] at ho <;> simp [likeOps]
+  have := h1 o hm
+  cases hq : g.ternBp (symOf o) with
+  | none => simp [hq] at this
+  | some q =>
+    obtain ⟨m, b3, fl⟩ := q
+    cases m <;> cases fl <;> simp [hq] at this
+    exact ⟨b3, rfl⟩
+
 structure Compat (g : Grammar) : Prop where
   inf_known : ∀ o ∈ coreInfix, ∃ lbp rbp, g.infixBp (symOf o) = some (lbp, rbp) ∧
-    g.ternBp (symOf o) = none ∧ (precedence o).isSome = true
+    (likeOp o = false → g.ternBp (symOf o) = none) ∧ (precedence o).isSome = true
   pre_known : ∀ u ∈ corePrefix, ∃ bp, g.prefixBp (symOf u) = some bp ∧ (precedence u).isSome = true
   inf_inf : ∀ p ∈ coreInfix, p ≠ .concat_op → ∀ o ∈ coreInfix, ∀ lbp rbp,
     g.infixBp (symOf p) = some (lbp, rbp) →
@@ -300,21 +384,22 @@ structure Compat (g : Grammar) : Prop where
     (∀ o ∈ coreInfix, sr ≤ infBase g o) ∧ (∀ u ∈ corePrefix, sr ≤ preBase g u)
   bottom : (∀ o ∈ coreInfix, opSmallest - 1 < precOf o) ∧ (∀ u ∈ corePrefix, opSmallest - 1 < precOf u)
   add_div : precOf .add ≤ precOf .truediv
+  like : LikeFacts g
 
 theorem sep_of_bool (g : Grammar) (h : sepCompat g = true) :
     (∃ sl sr, sl < sr ∧
       (∀ s, s.isSep = true → g.infixBp s = some (sl, sr) ∧ g.ternBp s = none) ∧
       (∀ o ∈ coreInfix, sr ≤ infBase g o) ∧ (∀ u ∈ corePrefix, sr ≤ preBase g u)) ∧
     ((∀ o ∈ coreInfix, opSmallest - 1 < precOf o) ∧ (∀ u ∈ corePrefix, opSmallest - 1 < precOf u)) ∧
-    precOf .add ≤ precOf .truediv := by
+    precOf .add ≤ precOf .truediv ∧ LikeFacts g := by
   unfold sepCompat at h
   cases hb : g.infixBp .comma with
   | none => simp [hb] at h
   | some p =>
     obtain ⟨sl, sr⟩ := p
     simp only [hb, Bool.and_eq_true, List.all_eq_true, decide_eq_true_eq, beq_iff_eq] at h
-    obtain ⟨⟨⟨⟨⟨⟨h1, h2⟩, h3⟩, h4⟩, h5⟩, h6⟩, h7⟩ := h
-    refine ⟨⟨sl, sr, h1, ?_, h3, h4⟩, ⟨h5, h6⟩, h7⟩
+    obtain ⟨⟨⟨⟨⟨⟨⟨h1, h2⟩, h3⟩, h4⟩, h5⟩, h6⟩, h7⟩, h8⟩ := h
+    refine ⟨⟨sl, sr, h1, ?_, h3, h4⟩, ⟨h5, h6⟩, h7, like_of_bool g h8⟩
     intro s hs
     have hm : s ∈ sepSyms := by cases s <;> simp [Sym.isSep] at hs <;> simp [sepSyms]
     have := h2 s hm
@@ -336,10 +421,10 @@ theorem compat_of_bool (g : Grammar) (h : coreCompat g = true) : Compat g := by
   have hsep : sepCompat g = true := by
     simp only [coreCompat, Bool.and_eq_true] at h
     exact h.1.1.1.1.1.1.1
-  obtain ⟨hS, hB, hAD⟩ := sep_of_bool g hsep
+  obtain ⟨hS, hB, hAD, hLK⟩ := sep_of_bool g hsep
   simp only [coreCompat, Bool.and_eq_true, List.all_eq_true] at h
   obtain ⟨⟨⟨⟨⟨⟨⟨_, h1⟩, h2⟩, h3⟩, h4⟩, h5⟩, h6⟩, h7⟩ := h
-  refine ⟨?_, ?_, ?_, ?_, ?_, ?_, ?_, ?_, ?_, hS, hB, hAD⟩
+  refine ⟨?_, ?_, ?_, ?_, ?_, ?_, ?_, ?_, ?_, hS, hB, hAD, hLK⟩
   · intro o ho
     have := h1 o ho
     try simp only [Bool.and_eq_true] at this
@@ -348,9 +433,10 @@ theorem compat_of_bool (g : Grammar) (h : coreCompat g = true) : Compat g := by
     | some p =>
       obtain ⟨lbp, rbp⟩ := p
       refine ⟨lbp, rbp, rfl, ?_, this.2⟩
+      intro hl
       cases hq : g.ternBp (symOf o) with
       | none => rfl
-      | some q => simp [hq] at this
+      | some q => simp [hq, hl] at this
   · intro u hu
     have := h2 u hu
     try simp only [Bool.and_eq_true] at this
@@ -432,13 +518,6 @@ theorem same_of_not_precedent_le {cop op : Op} (hop : (precedence op).isSome = t
       simp only [precOf, hp, Option.getD_some] at hle
       omega
 
-/-- the root operator of a core element, if it has one -/
-def rootOp : SaExpr → Option Op
-  | .binary op _ _ _ _ _ => some op
-  | .clist op _ _ _ _ => some op
-  | .unary op _ _ => some op
-  | _ => none
-
 theorem not_precedent_of_not_wouldGroup {a : Op} {c : SaExpr} {cop : Op} (hc : Core c = true)
     (hr : rootOp c = some cop) (h : wouldGroup (some a) c = false) :
     isPrecedent cop (some a) = false := by
@@ -494,12 +573,12 @@ theorem above_of_WG (hprec : ∀ o, o ∈ coreInfix ∨ o ∈ corePrefix → (pr
   | .false_, _, _, _, _ => rfl
   | .grouping _, _, _, _, _ => rfl
   | .binary op l r n esc ty, p, hc, hw, hr => by
-    simp only [Core, Bool.and_eq_true] at hc
-    obtain ⟨⟨⟨hop, _⟩, hcl⟩, hcr⟩ := hc
+    have hmem := core_binary_mem hc
+    obtain ⟨hcl, hcr, _⟩ := core_binary hc
     simp only [WG, Bool.and_eq_true, Bool.not_eq_true'] at hw
     obtain ⟨⟨⟨hgl, hgr⟩, hwl⟩, hwr⟩ := hw
     simp only [rootAbove, decide_eq_true_eq] at hr
-    have hs := hprec op (Or.inl (coreBinD_mem hop))
+    have hs := hprec op (Or.inl hmem)
     simp only [above, Bool.and_eq_true, decide_eq_true_eq]
     refine ⟨⟨hr, ?_⟩, ?_⟩
     · apply above_of_WG hprec l p hcl hwl
@@ -627,6 +706,150 @@ theorem tight_of_no_rootOp (g : Grammar) (d : Dialect) (k : Nat) :
   | .ilikeOperand _, hc, _ => by simp [Core] at hc
   | .absent, hc, _ => by simp [Core] at hc
 
+/-! ### the LIKE family: closed operands -/
+
+/-- an atom or a bracket -/
+def closedG : G → Bool
+  | G.atom _ => true
+  | G.br _ _ => true
+  | _ => false
+
+theorem tight_closed (g : Grammar) (k : Nat) {x : G} (h : closedG x = true) : tight g k x = true := by
+  cases x <;> simp [closedG] at h <;> rfl
+
+theorem allExp_closed (P : Sym → Bool) {x : G} (h : closedG x = true) : allExp P x = true := by
+  cases x <;> simp [closedG] at h <;> rfl
+
+theorem closedG_caseG (v : Option G) (ws : List G) (e : Option G) : closedG (caseG v ws e) = true := by
+  unfold caseG
+  cases caseBody v ws with
+  | none => rfl
+  | some p => obtain ⟨kk, b⟩ := p; cases e <;> rfl
+
+/-- an element without root operator renders to an atom or a bracket -/
+theorem closedG_render (d : Dialect) :
+    ∀ c : SaExpr, Core c = true → rootOp c = none → closedG (render d true c) = true
+  | .col _ _, _, _ => rfl
+  | .bind _ _, _, _ => rfl
+  | .null, _, _ => rfl
+  | .true_, _, _ => rfl
+  | .false_, _, _ => rfl
+  | .grouping _, _, _ => by rw [render_grouping]; rfl
+  | .subq _ _, _, _ => rfl
+  | .func _ _ _, _, _ => by rw [render_func]; rfl
+  | .case_ _ _ _ _, _, _ => by rw [render_case]; exact closedG_caseG _ _ _
+  | .cast e ty, hc, _ => by
+    rw [render_cast]
+    cases castName d ty with
+    | some n => rfl
+    | none =>
+      by_cases hg : wouldGroup none e = true
+      · simp [castG, hg, closedG]
+      · have hg' : wouldGroup none e = false := by simpa using hg
+        simp only [castG, hg', Bool.false_eq_true, if_false]
+        have hce : Core e = true := by simpa [Core] using hc
+        exact closedG_render d e hce (rootOp_none_of_not_grouped e hce hg')
+  | .binary _ _ _ _ _ _, _, h => by simp [rootOp] at h
+  | .clist _ _ _ _ _, _, h => by simp [rootOp] at h
+  | .unary _ _ _, _, h => by simp [rootOp] at h
+  | .asbool _ _ _, hc, _ => by simp [Core] at hc
+  | .inlist _ _ _, hc, _ => by simp [Core] at hc
+  | .inrows _ _ _, hc, _ => by simp [Core] at hc
+  | .tuple_ _, hc, _ => by simp [Core] at hc
+  | .litcol _ _, hc, _ => by simp [Core] at hc
+  | .ilikeOperand _, hc, _ => by simp [Core] at hc
+  | .absent, hc, _ => by simp [Core] at hc
+
+/-- the symbol a dialect renders a LIKE-family operator with -/
+def likeSym (d : Dialect) : Op → Sym
+  | .not_like_op => .notLike
+  | .ilike_op => if d = .postgresql then .ilike else .like
+  | .not_ilike_op => if d = .postgresql then .notIlike else .notLike
+  | _ => .like
+
+/-- `lower(…)` around the operands of `ilike` on every dialect but PostgreSQL -/
+def likeWrap (d : Dialect) (op : Op) (x : G) : G :=
+  if (op = .ilike_op ∨ op = .not_ilike_op) ∧ d ≠ .postgresql then lowerG x else x
+
+theorem render_like (d : Dialect) (lb : Bool) (op : Op) (l r : SaExpr) (n : Option Op)
+    (esc : Option String) (ty : Ty) (h : likeOp op = true) :
+    ∃ t, render d lb (.binary op l r n esc ty) =
+      likeG d (likeSym d op) t (likeWrap d op (render d lb l)) (likeWrap d op (render d lb r)) esc := by
+  cases op <;> simp [likeOp] at h
+  · exact ⟨_, rfl⟩
+  · exact ⟨_, rfl⟩
+  · by_cases hd : d = .postgresql
+    · subst hd; exact ⟨_, rfl⟩
+    · refine ⟨" LIKE ", ?_⟩
+      show (if d = .postgresql then _ else _) = _
+      simp [hd, likeSym, likeWrap]
+  · by_cases hd : d = .postgresql
+    · subst hd; exact ⟨_, rfl⟩
+    · refine ⟨" NOT LIKE ", ?_⟩
+      show (if d = .postgresql then _ else _) = _
+      simp [hd, likeSym, likeWrap]
+
+theorem closedG_likeWrap (d : Dialect) (op : Op) (x : G) (h : closedG x = true) :
+    closedG (likeWrap d op x) = true := by
+  unfold likeWrap
+  split
+  · rfl
+  · exact h
+
+theorem ok_likeWrap (g : Grammar) (d : Dialect) (op : Op) (x : G) (h : ok g x = true) :
+    ok g (likeWrap d op x) = true := by
+  unfold likeWrap
+  split
+  · simpa [lowerG, ok] using h
+  · exact h
+
+theorem tight_likeG (g : Grammar) (k : Nat) (d : Dialect) (s : Sym) (t : String) (L R : G)
+    (esc : Option String) (lbp rbp bp3 : Nat) (hb : g.infixBp s = some (lbp, rbp))
+    (hq : g.ternBp s = some (.escape, bp3, false)) (h1 : k ≤ lbp) (h2 : k ≤ rbp) (h3 : k ≤ bp3)
+    (cL : closedG L = true) (cR : closedG R = true) : tight g k (likeG d s t L R esc) = true := by
+  cases esc <;> simp [likeG, tight, hb, hq, h1, h2, h3, tight_closed g k cL, tight_closed g k cR]
+
+theorem allExp_likeG (P : Sym → Bool) (d : Dialect) (s : Sym) (t : String) (L R : G)
+    (esc : Option String) (hP : P s = true) (cL : closedG L = true) (cR : closedG R = true) :
+    allExp P (likeG d s t L R esc) = true := by
+  cases esc <;> simp [likeG, allExp, hP, allExp_closed P cL, allExp_closed P cR]
+
+theorem ok_likeG (g : Grammar) (d : Dialect) (s : Sym) (t : String) (L R : G)
+    (esc : Option String) (lbp rbp bp3 : Nat) (hb : g.infixBp s = some (lbp, rbp))
+    (hq : g.ternBp s = some (.escape, bp3, false)) (ha : G.assocSym s = false)
+    (hesc : g.infixBp .escape = none)
+    (cL : closedG L = true) (cR : closedG R = true) (okL : ok g L = true) (okR : ok g R = true) :
+    ok g (likeG d s t L R esc) = true := by
+  cases esc with
+  | none =>
+    simp [likeG, ok, hb, ha, hq, okL, okR, tight_closed g _ cL, tight_closed g _ cR, allExp_closed _ cL]
+  | some c =>
+    simp [likeG, ok, hb, hq, okL, okR, tight_closed g _ cL, tight_closed g _ cR, allExp_closed _ cL,
+      allExp_closed _ cR, stops, hesc, tight]
+
+theorem likeSym_symOf (d : Dialect) (op : Op) (h : likeOp op = true) :
+    ∃ o ∈ coreInfix, likeSym d op = symOf o := by
+  cases op <;> simp [likeOp] at h
+  · exact ⟨.like_op, by simp [coreInfix], rfl⟩
+  · exact ⟨.not_like_op, by simp [coreInfix], rfl⟩
+  · by_cases hd : d = .postgresql
+    · exact ⟨.ilike_op, by simp [coreInfix], by simp [likeSym, hd, symOf]⟩
+    · exact ⟨.like_op, by simp [coreInfix], by simp [likeSym, hd, symOf]⟩
+  · by_cases hd : d = .postgresql
+    · exact ⟨.not_ilike_op, by simp [coreInfix], by simp [likeSym, hd, symOf]⟩
+    · exact ⟨.not_like_op, by simp [coreInfix], by simp [likeSym, hd, symOf]⟩
+
+theorem coreBinD_not_like {op : Op} (h : coreBinD op = true) : likeOp op = false := by
+  rcases coreBinD_cases h with h | h
+  · cases op <;> simp [coreBin] at h <;> rfl
+  · cases op <;> simp [coreDiv] at h <;> rfl
+
+theorem coreList_not_like {op : Op} (h : coreList op = true) : likeOp op = false := by
+  cases op <;> simp [coreList] at h <;> rfl
+
+theorem symOf_ne_escape (o : Op) : symOf o ≠ .escape := by
+  cases o <;> simp [symOf]
+
 theorem tight_chainFrom (g : Grammar) (k : Nat) (s : Sym) (t : String) (lbp rbp : Nat)
     (hb : g.infixBp s = some (lbp, rbp)) (hl : k ≤ lbp) (hr : k ≤ rbp) :
     ∀ (gs : List G) (acc : G), tight g k acc = true → (∀ x ∈ gs, tight g k x = true) →
@@ -651,7 +874,50 @@ theorem allExp_chainFrom (P : Sym → Bool) (s : Sym) (t : String) (hs : P s = t
 theorem infBase_le {g : Grammar} {o : Op} {lbp rbp k : Nat}
     (hb : g.infixBp (symOf o) = some (lbp, rbp)) (h : k ≤ infBase g o) : k ≤ lbp ∧ k ≤ rbp := by
   simp only [infBase, hb] at h
+  split at h <;> omega
+
+theorem infBase_le3 {g : Grammar} {o : Op} {lbp rbp k bp3 : Nat} {m : Sym} {fl : Bool}
+    (hb : g.infixBp (symOf o) = some (lbp, rbp)) (hq : g.ternBp (symOf o) = some (m, bp3, fl))
+    (h : k ≤ infBase g o) : k ≤ lbp ∧ k ≤ rbp ∧ k ≤ bp3 := by
+  simp only [infBase, hb, hq] at h
   omega
+
+/-- the binding powers of the symbol a LIKE-family operator is rendered with are those the
+    table facts were checked for -/
+theorem like_facts (g : Grammar) (C : Compat g) (d : Dialect) (op : Op) (h : likeOp op = true) :
+    ∃ lbp rbp bp3, g.infixBp (likeSym d op) = some (lbp, rbp) ∧
+      g.ternBp (likeSym d op) = some (.escape, bp3, false) ∧
+      g.infixBp (symOf op) = some (lbp, rbp) ∧ g.ternBp (symOf op) = some (.escape, bp3, false) ∧
+      G.assocSym (likeSym d op) = false := by
+  obtain ⟨lbp, rbp, hb, _, _⟩ := C.inf_known op (likeOp_mem h)
+  obtain ⟨bp3, hq⟩ := C.like.tern op h
+  refine ⟨lbp, rbp, bp3, ?_, ?_, hb, hq, ?_⟩
+  · cases op <;> simp [likeOp] at h
+    · exact hb
+    · exact hb
+    · by_cases hd : d = .postgresql
+      · simp only [likeSym, hd, if_true]; exact hb
+      · simp only [likeSym, hd, if_false]; rw [← C.like.same_i]; exact hb
+    · by_cases hd : d = .postgresql
+      · simp only [likeSym, hd, if_true]; exact hb
+      · simp only [likeSym, hd, if_false]; rw [← C.like.same_ni]; exact hb
+  · cases op <;> simp [likeOp] at h
+    · exact hq
+    · exact hq
+    · by_cases hd : d = .postgresql
+      · simp only [likeSym, hd, if_true]; exact hq
+      · simp only [likeSym, hd, if_false]; rw [← C.like.same_t]; exact hq
+    · by_cases hd : d = .postgresql
+      · simp only [likeSym, hd, if_true]; exact hq
+      · simp only [likeSym, hd, if_false]; rw [← C.like.same_nt]; exact hq
+  · cases op <;> simp [likeOp] at h
+    · rfl
+    · rfl
+    · by_cases hd : d = .postgresql <;> simp [likeSym, hd, G.assocSym]
+    · by_cases hd : d = .postgresql <;> simp [likeSym, hd, G.assocSym]
+
+theorem closedE_none {c : SaExpr} (h : closedE c = true) : rootOp c = none := by
+  simpa [closedE] using h
 
 theorem symOf_div {op : Op} (h : coreDiv op = true) : symOf op = .slash := by
   cases op <;> simp [coreDiv] at h <;> rfl
@@ -679,10 +945,18 @@ theorem tight_render (g : Grammar) (C : Compat g) (d : Dialect) (k : Nat) (p : I
   | .false_, _, _ => rfl
   | .grouping e, _, _ => by rw [render_grouping]; rfl
   | .binary op l r n esc ty, hc, ha => by
-    simp only [Core, Bool.and_eq_true] at hc
-    obtain ⟨⟨⟨hop, _⟩, hcl⟩, hcr⟩ := hc
+    obtain ⟨hcl, hcr, hk⟩ := core_binary hc
     simp only [above, Bool.and_eq_true, decide_eq_true_eq] at ha
     obtain ⟨⟨hp, hal⟩, har⟩ := ha
+    rcases hk with ⟨hop, _⟩ | ⟨hlk, cl, cr⟩
+    case inr =>
+      obtain ⟨lbp, rbp, bp3, hb, hq, hb', hq', _⟩ := like_facts g C d op hlk
+      obtain ⟨h1, h2, h3⟩ := infBase_le3 hb' hq' (H op (likeOp_mem hlk) hp)
+      obtain ⟨t, heq⟩ := render_like d true op l r n esc ty hlk
+      rw [heq]
+      exact tight_likeG g k d _ t _ _ esc lbp rbp bp3 hb hq h1 h2 h3
+        (closedG_likeWrap _ _ _ (closedG_render d l hcl (closedE_none cl)))
+        (closedG_likeWrap _ _ _ (closedG_render d r hcr (closedE_none cr)))
     obtain ⟨lbp, rbp, hb, _, _⟩ := C.inf_known op (coreBinD_mem hop)
     obtain ⟨h1, h2⟩ := infBase_le hb (H op (coreBinD_mem hop) hp)
     rcases coreBinD_cases hop with hop' | hdiv
@@ -760,8 +1034,15 @@ theorem allExp_render (d : Dialect) (P : Sym → Bool)
   | .false_, _ => rfl
   | .grouping e, _ => by rw [render_grouping]; rfl
   | .binary op l r n esc ty, hc => by
-    simp only [Core, Bool.and_eq_true] at hc
-    obtain ⟨⟨⟨hop, _⟩, hcl⟩, hcr⟩ := hc
+    obtain ⟨hcl, hcr, hk⟩ := core_binary hc
+    rcases hk with ⟨hop, _⟩ | ⟨hlk, cl, cr⟩
+    case inr =>
+      obtain ⟨t, heq⟩ := render_like d true op l r n esc ty hlk
+      obtain ⟨o, ho, hso⟩ := likeSym_symOf d op hlk
+      rw [heq]
+      exact allExp_likeG P d _ t _ _ esc (by rw [hso]; exact hP o ho)
+        (closedG_likeWrap _ _ _ (closedG_render d l hcl (closedE_none cl)))
+        (closedG_likeWrap _ _ _ (closedG_render d r hcr (closedE_none cr)))
     rcases coreBinD_cases hop with hop' | hdiv
     · by_cases hcf : catFn d op = true
       · rw [render_catFn_bin d true op l r n esc ty hcf]; rfl
@@ -849,8 +1130,10 @@ theorem rootIs_render_of_rootOp (d : Dialect) (op : Op) (c : SaExpr) (hc : Core 
   cases c with
   | binary op' l r n esc ty =>
     simp only [rootOp, Option.some.injEq] at hr; subst hr
-    simp only [Core, Bool.and_eq_true] at hc
-    rcases coreBinD_cases hc.1.1.1 with hop' | hdiv
+    obtain ⟨_, _, hk⟩ := core_binary hc
+    rcases hk with ⟨hop, _⟩ | ⟨hlk, _, _⟩
+    case inr => cases op' <;> simp [likeOp] at hlk <;> simp [symOf, G.assocSym] at hna
+    rcases coreBinD_cases hop with hop' | hdiv
     · obtain ⟨txt, heq⟩ := render_coreBin d true op' l r n esc ty hop' hcf
       rw [heq]; simp [rootIs]
     · rw [symOf_div hdiv] at hna
@@ -1008,11 +1291,14 @@ theorem child_under_prefix (g : Grammar) (C : Compat g) (d : Dialect) (op : Op) 
         (fun o ho h => by have := C.pre_inf op hu o ho h; omega)
         (fun v hv h => by have := C.pre_pre op hu v hv h; omega) c hc hab
 
-theorem notMid_core (g : Grammar) (C : Compat g) (f : Option Sym) :
+theorem notMid_core (g : Grammar) (C : Compat g) (f : Option Sym) (hf : f ≠ some .escape) :
     (∀ o ∈ coreInfix, notMidOf g f (symOf o) = true) := by
   intro o ho
   obtain ⟨_, _, _, hq, _⟩ := C.inf_known o ho
-  simp [notMidOf, hq]
+  by_cases hl : likeOp o = true
+  · obtain ⟨bp3, ht⟩ := C.like.tern o hl
+    simp [notMidOf, ht, hf]
+  · simp [notMidOf, hq (by simpa using hl)]
 
 /-- prefix symbols have no ternary form in the modelled grammars: stated as a hypothesis -/
 def prefixNoTern (g : Grammar) : Prop := ∀ u ∈ corePrefix, g.ternBp (symOf u) = none
@@ -1154,10 +1440,12 @@ theorem ok_castG {g : Grammar} {sl sr : Nat} (F : SepFacts g sl sr) (name : Opti
 
 theorem rootOp_mem {c : SaExpr} {cop : Op} (hc : Core c = true) (h : rootOp c = some cop) :
     cop ∈ coreInfix ∨ cop ∈ corePrefix := by
-  cases c <;> simp [rootOp] at h <;> subst h <;> simp only [Core, Bool.and_eq_true] at hc
-  · exact Or.inl (coreBinD_mem hc.1.1.1)
-  · exact Or.inl (coreList_mem hc.1.1.1)
-  · exact Or.inr (coreUn_mem hc.1)
+  cases c <;> simp [rootOp] at h <;> subst h
+  · exact Or.inl (core_binary_mem hc)
+  · simp only [Core, Bool.and_eq_true] at hc
+    exact Or.inl (coreList_mem hc.1.1.1)
+  · simp only [Core, Bool.and_eq_true] at hc
+    exact Or.inr (coreUn_mem hc.1)
 
 /-- every operator of a well grouped core element lies above the bottom of the precedence scale -/
 theorem above_bottom (g : Grammar) (C : Compat g) (c : SaExpr) (hc : Core c = true) (hw : WG c = true) :
@@ -1177,8 +1465,9 @@ theorem sepOpnd_render (g : Grammar) (C : Compat g) (hpt : prefixNoTern g) (d : 
   refine ⟨hok, ?_, ?_⟩
   · exact tight_render g C d sr (opSmallest - 1) (fun o ho _ => hi o ho) (fun u hu _ => hp u hu) c hc
       (above_bottom g C c hc hw)
-  · intro s _
-    exact allExp_render d _ (notMid_core g C _) (fun u hu => by simp [notMidOf, hpt u hu]) c hc
+  · intro s hs
+    exact allExp_render d _ (notMid_core g C _ (by
+      intro h; cases h; simp [Sym.isSep] at hs)) (fun u hu => by simp [notMidOf, hpt u hu]) c hc
 
 /-- a child left bare under a parent that is not naturally self-precedent lies strictly above it -/
 theorem child_above (g : Grammar) (C : Compat g) (op : Op) (hi : op ∈ coreInfix)
@@ -1212,7 +1501,7 @@ theorem ok_plus_zero (g : Grammar) (C : Compat g) (R : G) (okR : ok g R = true)
   obtain ⟨_, lbpP, rbpP, hbP, hlt⟩ := C.nsp_assoc .add hi (C.assoc_nsp .add hi ha)
   obtain ⟨_, _, hbP', hqP, _⟩ := C.inf_known .add hi
   have hbP2 : g.infixBp .plus = some (lbpP, rbpP) := hbP
-  have hqP2 : g.ternBp .plus = none := hqP
+  have hqP2 : g.ternBp .plus = none := hqP rfl
   have ha2 : G.assocSym .plus = true := rfl
   simp [ok, hbP2, ha2, okR, hqP2, hlt, tR lbpP rbpP hbP2, nmR, zeroAtom, tight, allExp]
 
@@ -1297,15 +1586,25 @@ theorem ok_render (g : Grammar) (C : Compat g) (hpt : prefixNoTern g) (d : Diale
     exact ok_render g C hpt d e (by simpa [Core] using hc) (by simpa [WG] using hw)
       (csh_sub hs (by simp [ConcatSafe]))
   | .binary op l r n esc ty, hc, hw, hs => by
-    simp only [Core, Bool.and_eq_true] at hc
-    obtain ⟨⟨⟨hop, _⟩, hcl⟩, hcr⟩ := hc
+    obtain ⟨hcl, hcr, hk⟩ := core_binary hc
     simp only [WG, Bool.and_eq_true, Bool.not_eq_true'] at hw
     obtain ⟨⟨⟨hgl, hgr⟩, hwl⟩, hwr⟩ := hw
     obtain ⟨hsl, hsr, hcat⟩ := csh_binary hs
-    have hi := coreBinD_mem hop
-    obtain ⟨lbp, rbp, hb, hq, _⟩ := C.inf_known op hi
     have okl := ok_render g C hpt d l hcl hwl hsl
     have okr := ok_render g C hpt d r hcr hwr hsr
+    rcases hk with ⟨hop, _⟩ | ⟨hlk, cl, cr⟩
+    case inr =>
+      -- the LIKE family over closed operands
+      obtain ⟨lbp, rbp, bp3, hb, hq, _, _, ha⟩ := like_facts g C d op hlk
+      obtain ⟨t, heq⟩ := render_like d true op l r n esc ty hlk
+      rw [heq]
+      exact ok_likeG g d _ t _ _ esc lbp rbp bp3 hb hq ha C.like.esc_none
+        (closedG_likeWrap _ _ _ (closedG_render d l hcl (closedE_none cl)))
+        (closedG_likeWrap _ _ _ (closedG_render d r hcr (closedE_none cr)))
+        (ok_likeWrap g d op _ okl) (ok_likeWrap g d op _ okr)
+    have hi := coreBinD_mem hop
+    obtain ⟨lbp, rbp, hb, hq', _⟩ := C.inf_known op hi
+    have hq := hq' (coreBinD_not_like hop)
     obtain ⟨sl, sr, hlt, hbp, hsi, hsp⟩ := C.sep
     have F : SepFacts g sl sr := ⟨hlt, hbp⟩
     by_cases hcf : catFn d op = true
@@ -1323,9 +1622,9 @@ theorem ok_render (g : Grammar) (C : Compat g) (hpt : prefixNoTern g) (d : Diale
     obtain ⟨hccl, hccr⟩ := hcat hcf'
     have chl := child_under_infix g C d op hi lbp rbp hb l hcl hwl hgl hccl
     have chr := child_under_infix g C d op hi lbp rbp hb r hcr hwr hgr hccr
-    have nml := allExp_render d (notMidOf g (some (symOf op))) (notMid_core g C _)
+    have nml := allExp_render d (notMidOf g (some (symOf op))) (notMid_core g C _ (by simp [symOf_ne_escape]))
       (fun u hu => by simp [notMidOf, hpt u hu]) l hcl
-    have nmr := allExp_render d (notMidOf g (some (symOf op))) (notMid_core g C _)
+    have nmr := allExp_render d (notMidOf g (some (symOf op))) (notMid_core g C _ (by simp [symOf_ne_escape]))
       (fun u hu => by simp [notMidOf, hpt u hu]) r hcr
     rcases coreBinD_cases hop with hop' | hdiv
     · obtain ⟨txt, heq⟩ := render_coreBin d true op l r n esc ty hop' hcf'
@@ -1386,7 +1685,7 @@ theorem ok_render (g : Grammar) (C : Compat g) (hpt : prefixNoTern g) (d : Diale
               (fun o ho h => (C.inf_inf .add hia hne o ho lbpP rbpP hbP (by have := C.add_div; omega)).2)
               (fun u hu h => (C.inf_pre .add hia u hu lbpP rbpP hbP (by have := C.add_div; omega)).2)
               r hcr hab
-          · exact allExp_render d _ (notMid_core g C _) (fun u hu => by simp [notMidOf, hpt u hu]) r hcr
+          · exact allExp_render d _ (notMid_core g C _ (by simp [symOf_ne_escape])) (fun u hu => by simp [notMidOf, hpt u hu]) r hcr
         · split
           · apply ok_slash g lbp rbp hb hq _ _ okl _ tl nml rfl
             exact ok_castG F (some _) false _ sR
@@ -1434,7 +1733,8 @@ theorem ok_render (g : Grammar) (C : Compat g) (hpt : prefixNoTern g) (d : Diale
       simp only [chain]
       rw [hcs'] at hall
       obtain ⟨hox, hcx⟩ := hall x (by simp)
-      exact ok_chainFrom g _ _ lbp rbp hb ha hlt hq xs x hox hcx (fun y hy => hall y (by simp [hy]))
+      exact ok_chainFrom g _ _ lbp rbp hb ha hlt (hq (coreList_not_like hop)) xs x hox hcx
+        (fun y hy => hall y (by simp [hy]))
   | .asbool _ _ _, hc, _, _ => by simp [Core] at hc
   | .subq _ _, _, _, _ => rfl
   | .func n args ty, hc, hw, hs => by
@@ -1525,7 +1825,7 @@ theorem ok_renderList (g : Grammar) (C : Compat g) (hpt : prefixNoTern g) (d : D
     rcases hx with hx | hx
     · subst hx
       refine ⟨ok_render g C hpt d c hc.1 hw.1.2 hs1, ?_⟩
-      have nm := allExp_render d (notMidOf g (some (symOf op))) (notMid_core g C _)
+      have nm := allExp_render d (notMidOf g (some (symOf op))) (notMid_core g C _ (by simp [symOf_ne_escape]))
         (fun u hu => by simp [notMidOf, hpt u hu]) c hc.1
       rcases child_under_infix g C d op hi lbp rbp hb c hc.1 hw.1.2 hw.1.1 (hcc c (by simp)) with h | h
       · exact Or.inl h.2
@@ -1687,8 +1987,12 @@ theorem lower_core : ∀ e : SaExpr, Core e = true → lower e = e
     simp only [lower]
     rw [lower_core e (by simpa [Core] using hc)]
   | .binary op l r n esc ty, hc => by
-    simp only [Core, Bool.and_eq_true] at hc
-    simp only [lower, strOpKind_coreD hc.1.1.1, lower_core l hc.1.2, lower_core r hc.2]
+    obtain ⟨hcl, hcr, hk⟩ := core_binary hc
+    have hso : strOpKind op = none := by
+      rcases hk with ⟨hop, _⟩ | ⟨hlk, _, _⟩
+      · exact strOpKind_coreD hop
+      · cases op <;> simp [likeOp] at hlk <;> rfl
+    simp only [lower, hso, lower_core l hcl, lower_core r hcr]
   | .unary op e ty, hc => by
     simp only [Core, Bool.and_eq_true] at hc
     simp only [lower, lower_core e hc.2]
